@@ -212,6 +212,27 @@ type c19Export struct {
 	paths  string // fingerprint of all paths at export time
 }
 
+// c19Outside: is this op (after it ran; n = current number of leaves) outside the property's quantifier
+// "non-empty list, every leaf position, a path"?  The model driver applies the same rule.
+func c19Outside(f []string, n int, exports []*c19Export) bool {
+	atoi := func(s string) int { v, _ := strconv.Atoi(s); return v }
+	switch f[0] {
+	case "leaves", "lf", "dup", "zero", "export":
+		return false
+	case "verifynil":
+		return true
+	case "pathraw":
+		return n == 0 || atoi(f[1]) < 0 || atoi(f[1]) >= n
+	case "checkexport":
+		k := atoi(f[1])
+		return k < len(exports) && exports[k].n == 0
+	case "loadcompute":
+		k := atoi(f[1])
+		return atoi(f[2]) == 0 || (k < len(exports) && exports[k].n == 0)
+	}
+	return n == 0
+}
+
 func runC19(ops []string) CaseResult {
 	res := CaseResult{}
 	tags := map[string]bool{}
@@ -625,6 +646,12 @@ func runC19(ops []string) CaseResult {
 			} else {
 				fail(i, "panic")
 			}
+		}
+		// outside the property's domain (no leaves, index out of range, nil path) the behaviour is observed (tags) but
+		// not compared with the model: a rewrite may change it without touching the property
+		if c19Outside(f, len(leaves), exports) {
+			tags["obs:"+f[0]+":"+strings.SplitN(out, " ", 2)[0]] = true
+			out = "obs"
 		}
 		res.Outs = append(res.Outs, out)
 	}
